@@ -36,6 +36,29 @@ func newStringPrefixFilter(code *syntax.Code) StringPrefixFilter {
 	opts := code.FindOptimizations
 	minRequiredLength := opts.MinRequiredLength
 
+	// A substring search on the raw string cannot see an invalid byte as the U+FFFD it
+	// decodes to, so literals containing U+FFFD are left to the rune-based search.
+	switch opts.FindMode {
+	case syntax.LeadingString_LeftToRight, syntax.LeadingString_OrdinalIgnoreCase_LeftToRight:
+		if strings.ContainsRune(opts.LeadingPrefix, utf8.RuneError) {
+			return nil
+		}
+	case syntax.LeadingStrings_LeftToRight, syntax.LeadingStrings_OrdinalIgnoreCase_LeftToRight:
+		for _, prefix := range opts.LeadingPrefixes {
+			if strings.ContainsRune(prefix, utf8.RuneError) {
+				return nil
+			}
+		}
+	case syntax.FixedDistanceString_LeftToRight:
+		if strings.ContainsRune(opts.FixedDistanceLiteral.S, utf8.RuneError) {
+			return nil
+		}
+	case syntax.LiteralAfterLoop_LeftToRight:
+		if opts.LiteralAfterLoop != nil && strings.ContainsRune(opts.LiteralAfterLoop.String, utf8.RuneError) {
+			return nil
+		}
+	}
+
 	switch opts.FindMode {
 	case syntax.LeadingString_LeftToRight:
 		return stringIndexPrefixFilter(opts.LeadingPrefix, false, minRequiredLength)
